@@ -327,7 +327,7 @@ def gen_write(tier):
     def strat(draw):
         return {
             "shape": [draw(st.integers(1, 14)), draw(st.integers(1, 14))],
-            "dtype": draw(st.sampled_from(["uint8", "uint8", "uint16", "uint16", "float64"])),
+            "dtype": draw(st.sampled_from(["uint8", "uint8", "uint8", "uint16", "uint16", "uint16", "float64"])),
             "suffix": draw(st.sampled_from([".png", ".tif", ".tiff", ".PNG", ".TIF"])),
             "cspace": draw(st.sampled_from(["RGB", "RGB", "BGR"])),
             "via_float": draw(st.booleans()),
@@ -411,7 +411,7 @@ def check_write(case):
 # 4. corrections
 # ---------------------------------------------------------------------------------------------
 
-RELOAD_KINDS = ["type", "type", "curvature", "curvature", "curvature", "drift_off", "drift_on", "drift_on",
+RELOAD_KINDS = ["type", "type", "curvature", "curvature", "curvature", "drift_off", "drift_off", "drift_on", "drift_on",
                 "illumination", "illumination", "color", "color"]
 
 
@@ -472,6 +472,8 @@ def check_corr(case):
             path = _path(f"{kind}.npz", "Path")
             orig.save(path)
             loaded = darsia.read_correction(path)
+            if kind == "color":
+                C.reseed_kmeans(loaded)  # as for the original, see c10.reseed_kmeans
             if type(loaded) is not type(orig):
                 raise Violation(f"reload-class:{kind}", f"{type(orig).__name__} reloaded as "
                                 f"{type(loaded).__name__}", t)
@@ -497,6 +499,8 @@ def check_corr(case):
             path2 = _path(f"{kind}-2.npz", "Path")
             loaded.save(path2)
             again = darsia.read_correction(path2)
+            if kind == "color":
+                C.reseed_kmeans(again)
             si, ai = _variant(case, 0)
             d = C._same_array(C._arr(C._apply(again, C._mk_input(si, ai), False)),
                               C._arr(C._apply(orig, C._mk_input(si, ai), False)))
@@ -534,14 +538,15 @@ PROP = Prop(
         "all generic metadata entries, attributes and the coordinate system are",
         "ImageMagick identify is absent: dates of written optical images are not compared",
         "4-channel byte strings and float OpticalImage.write raise NotImplementedError -> rejected",
-        "k-means inside the colour correction: cv2.setRNGSeed(0) before each application",
+        "k-means inside the colour correction: the instance's correct_array is wrapped to call "
+        "cv2.setRNGSeed(0) first (original and reloaded object alike)",
     ],
     subs=[
-        Sub("npz_roundtrip", _wrap(check_npz), gen=gen_npz, n={"quick": 2400, "thorough": 72000}, shards=_SH),
-        Sub("bytes_decode", _wrap(check_bytes), gen=gen_bytes, n={"quick": 2000, "thorough": 60000}, shards=_SH),
-        Sub("optical_write_read", _wrap(check_write), gen=gen_write, n={"quick": 1600, "thorough": 48000},
+        Sub("npz_roundtrip", _wrap(check_npz), gen=gen_npz, n={"quick": 2400, "thorough": 120000}, shards=_SH),
+        Sub("bytes_decode", _wrap(check_bytes), gen=gen_bytes, n={"quick": 2000, "thorough": 80000}, shards=_SH),
+        Sub("optical_write_read", _wrap(check_write), gen=gen_write, n={"quick": 1600, "thorough": 80000},
             shards=_SH),
-        Sub("correction_reload", _wrap(check_corr), gen=gen_corr, n={"quick": 600, "thorough": 18000},
+        Sub("correction_reload", _wrap(check_corr), gen=gen_corr, n={"quick": 600, "thorough": 30000},
             shards=_SH),
     ],
 )
